@@ -174,9 +174,8 @@ func mySeeds() []*Seed {
 		// maps of structs generated from disjunctions (array_to_append /
 		// map_to_index followed by disjunction_as_options builds envelopes)
 		{Name: "uniondtcoll", Pkgs: []irgen.PkgSpec{{Pkg: P, EntryPoint: "Root", Objects: append([]irgen.ObjSpec{
-			{Name: "Root", T: StructN([]F{{"items", true}, {"vals", false}, {"byKey", false}}, []irgen.Term{
+			{Name: "Root", T: StructN([]F{{"items", true}, {"byKey", false}}, []irgen.Term{
 				Arr(irgen.Term{K: "disj", Sub: []irgen.Term{Ref(P + ".S"), Ref(P + ".T")}, Disc: true}),
-				Arr(Disj(S("string"), S("bool"))),
 				Map(irgen.Term{K: "disj", Sub: []irgen.Term{Ref(P + ".S"), Ref(P + ".T")}, Disc: true})})},
 		}, irgen.Support(P)[:2]...)}}},
 		// two packages with the same objects and the same disjunctions: cog's
